@@ -28,13 +28,17 @@ func NewRelay(ctx context.Context, in, out ITracer, transformer Transformer) {
 	ch := in.Subscribe()
 	handle := out.RegisterSender()
 	go func() {
+		// served once: a done channel is always ready and the loop would spin
+		// until `in` is done
+		cancelled := ctx.Done()
 		for {
 			select {
 			case <-in.Done():
 				handle.Done()
 				in.Unsubscribe(ch)
 				return
-			case <-ctx.Done():
+			case <-cancelled:
+				cancelled = nil
 				// wait until `in` Tracer is done
 				//return
 			case trace, ok := <-ch:
